@@ -59,12 +59,12 @@ vars == <<prog, todo, doing, hand, held, que, fly, stale, nrec, ndrop, runs, rel
 
 Kind(a)   == prog.kind[a]
 IsAsp(a)  == Kind(a) = "analysis"
-Parents(a) == { p[1] : p \in prog.ins[a] }
+Parents(a) == { p[1] : p \in prog.ins[a] } \ {a}      \* an algorithm may read its own earlier output (an accumulator): no edge
 Children(a) == { c \in Alg : a \in Parents(c) }
 
 (* transitive closure of the declared inputs, computed once per behaviour
    (Init) and carried in prog.anc *)
-ParentsIn(ins, a) == { p[1] : p \in ins[a] }
+ParentsIn(ins, a) == { p[1] : p \in ins[a] } \ {a}
 RECURSIVE AncOf(_, _, _)
 AncOf(ins, a, n) == IF n = 0 THEN {}
                     ELSE ParentsIn(ins, a) \cup UNION { AncOf(ins, p, n - 1) : p \in ParentsIn(ins, a) }
